@@ -7,6 +7,11 @@ package lexer
 
 //@ typeinv Lexer: self.commentMap != nil
 
+// ---- C05: order predicates on source ranges (lines from 1, columns from 0) ----
+//@ spec locBefore(sl int, sc int, ol int, oc int) bool = sl < ol || (sl == ol && sc <= oc)
+//@ spec locContains(sl int, sc int, el int, ec int, osl int, osc int, oel int, oec int) bool =
+//@      !(sl > osl || el < oel) && !(sl == osl && sc > osc) && !(el == oel && ec < oec)
+
 //@ func GetRangeLoc
 //@   sweep C01
 //@   requires beginLoc != nil && endLoc != nil
@@ -32,10 +37,16 @@ package lexer
 
 //@ func (Location).IsContainLoc
 //@   sweep C01
+//@   props C05
+//@   pure
+//@   ensures[is-range-containment] result <==> locContains(loc.StartLine, loc.StartColumn, loc.EndLine, loc.EndColumn, locOne.StartLine, locOne.StartColumn, locOne.EndLine, locOne.EndColumn)
 //@ end
 
 //@ func (Location).IsBeforeLoc
 //@   sweep C01
+//@   props C05
+//@   pure
+//@   ensures[is-start-order] result <==> locBefore(loc.StartLine, loc.StartColumn, locOne.StartLine, locOne.StartColumn)
 //@ end
 
 //@ func (*Token).GetLine
